@@ -9,6 +9,9 @@
 //! * H4 `enter_format` - number of `format_expr_impl` invocations (work done by the formatter)
 //! * H5 `on_env_insert` - log of `Environment::insert` calls that replaced an existing binding of the
 //!   same scope (only while recording)
+//! * H6 `on_driver_result` - the text a host driver (blots-wasm `format_blots`) is about to hand to its
+//!   host, so that the real driver can be exercised on a native target where the hand-over itself
+//!   is not available
 
 use crate::values::Value;
 use std::cell::{Cell, RefCell};
@@ -33,6 +36,31 @@ thread_local! {
     static LOG_PATH: RefCell<Option<Option<String>>> = const { RefCell::new(None) };
     static FORMAT_CALLS: Cell<u64> = const { Cell::new(0) };
     static ENV_OVERWRITES: RefCell<Vec<(usize, String)>> = const { RefCell::new(Vec::new()) };
+    static DRIVER_RESULTS: RefCell<Vec<(String, String)>> = const { RefCell::new(Vec::new()) };
+    static STOP_AFTER_DRIVER_RESULT: Cell<bool> = const { Cell::new(false) };
+}
+
+/// Payload of the unwind started by `on_driver_result` when the harness asked for it.
+#[derive(Debug)]
+pub struct DriverResultReached;
+
+/// On a native target the wasm-bindgen hand-over that follows a driver's result aborts the process;
+/// with this switch on, `on_driver_result` unwinds (payload `DriverResultReached`) instead of returning.
+pub fn set_stop_after_driver_result(on: bool) {
+    STOP_AFTER_DRIVER_RESULT.with(|c| c.set(on));
+}
+
+/// H6: called by a host driver with its entry point's name and the text it is about to return.
+pub fn on_driver_result(entry: &str, text: &str) {
+    DRIVER_RESULTS.with(|c| c.borrow_mut().push((entry.to_string(), text.to_string())));
+    if STOP_AFTER_DRIVER_RESULT.with(|c| c.get()) {
+        std::panic::panic_any(DriverResultReached);
+    }
+}
+
+/// Drain the H6 log of the current thread.
+pub fn take_driver_results() -> Vec<(String, String)> {
+    DRIVER_RESULTS.with(|c| std::mem::take(&mut *c.borrow_mut()))
 }
 
 /// H5: called by `Environment::insert` before the map is written; `env` is the address of the scope
